@@ -164,11 +164,12 @@ where
             let w = adj.node_index;
             let cost = adj.weight;
             let vw_dist = dist + cost;
-            if D[w] == f64::MAX && (seen[w] == f64::MAX || vw_dist < seen[w]) {
+            if D[w] == f64::MAX && vw_dist != f64::MAX && (seen[w] == f64::MAX || vw_dist < seen[w])
+            {
                 seen[w] = vw_dist;
                 push_fringe_node(&mut fringe, v, w, vw_dist);
                 sigma[w] = 0.0;
-            } else if vw_dist == seen[w] {
+            } else if vw_dist == seen[w] && vw_dist != f64::MAX {
                 sigma[w] += sigma[v];
             }
         }
